@@ -132,6 +132,18 @@ CLAIMED = {
         note="Trusted: Coq kernel; the repetition sweep (fresh interpreters and one long-lived process); Python/dpkt/scapy internals are exercised, not modelled.",
         technique="Coq proof (insertion sort over a strict total order is permutation-invariant) + repetition sweep over hash seeds, environments and in-process histories",
         design="3 C18"),
+    "C12": dict(
+        text="Proof (container structure; time arithmetic by search): Coq theorems over a model of dpkt_dsb.Reader and an independent serialiser of the pcapng format: "
+             "C12_read_back (any capture -- frames as Enhanced or obsolete Packet Blocks, secrets blocks, arbitrary other blocks before the interface description, between the "
+             "packets and at the end -- written in either byte order is read back as exactly its frames with their tick counts and its secrets, in order), C12_byte_order "
+             "(little- and big-endian files of one capture give the same items), C12_default_resolution / C12_resolution (no option = microseconds; if_tsresol v = 10^-v "
+             "resp. 2^-(v-128), in both byte orders). Closed under the global context. NOT modelled: the float conversion ticks -> seconds -> microseconds and dpkt's legacy pcap "
+             "reader; the check exports the same packets under seven resolutions, an offset, extra blocks, Packet Blocks, both byte orders and four legacy variants and "
+             "requires byte-identical exports.",
+        note="Trusted: Coq kernel; Spec/PcapngSpec.v as a transcription of the pcapng draft; the reader model tied to dpkt_dsb.Reader by correspondence on every generated file "
+             "(ticks, divisor, offset, frames, secrets); well-formed containers only.",
+        technique="Coq proof (block framing round trip via slice algebra, both byte orders) + container-variant sweep with byte-identical exports",
+        design="3 C12"),
     "C05": dict(
         text="Proof (partial): Coq theorems over the model of Session.handle_packet / extract_*_buf / get_tls_records: C05_segmentation_and_duplicates (per direction: ANY "
              "cut of a well-framed record stream into segments, from ANY initial sequence number modulo 2^32 -- streams across 2^32 included -- with ANY retransmitted "
